@@ -203,8 +203,13 @@ Drained == queue = <<>> /\ lw.pc = "idle" /\ cw.pc = "idle" /\ mode = "open"
            /\ \A i \in 1..Len(logs) : logs[i].st = "cq"
 \* coverage tags: situations the conformance runs should reach (used to direct generation)
 CqInversion == \E i, j \in 1..Len(logs) : i < j /\ logs[i].st = "cq" /\ logs[j].st = "cq" /\ logs[i].id > logs[j].id
+\* records already applied to the tables whose log files are still there (recovery replays them again)
+RECURSIVE AppliedInFiles(_)
+AppliedInFiles(i) == IF i > Len(logs) THEN 0
+                     ELSE Cardinality({j \in 1..Len(logs[i].recs) : logs[i].recs[j].h <= applied}) + AppliedInFiles(i + 1)
 CovOf(e) ==
     (IF e.a = "Crash" /\ IdInversion THEN {"crash_recycled"} ELSE {}) \cup
+    (IF e.a = "Crash" /\ AppliedInFiles(1) >= 2 /\ durable > applied THEN {"crash_2applied_1synced"} ELSE {}) \cup
     (IF e.a = "Crash" /\ Len(logs) >= 3 THEN {"crash_3files"} ELSE {}) \cup
     (IF e.a = "IoFailOther" /\ CqInversion THEN {"iofail_cq_recycled"} ELSE {}) \cup
     (IF e.a = "IoFailOther" /\ NumCq >= 2 THEN {"iofail_2cq"} ELSE {}) \cup
@@ -566,7 +571,8 @@ Crash ==
     /\ mode' = "crashed"
     /\ flushedCq' = 0 /\ rpos' = 0
     /\ UNCHANGED <<hist, logical, calls, nextRid, lastEnacted, tabs, dtabs, applied, durable, rcv, naux, lastRec>>
-    /\ Log([a |-> "Crash", inv |-> IdInversion, nfiles |-> Len(logs)])
+    /\ Log([a |-> "Crash", inv |-> IdInversion, nfiles |-> Len(logs), napp |-> AppliedInFiles(1),
+            nsyn |-> IF durable > applied THEN durable - applied ELSE 0])
 
 \* Power loss (default options: sync_wal): of everything written since a file's last sync an
 \* arbitrary part survives.  Only the appending file has unsynced records; keepLast = how
